@@ -133,6 +133,11 @@ impl<'a> Parser<'a> {
                         let hex: String = [self.next()?, self.next()?, self.next()?, self.next()?]
                             .iter()
                             .collect();
+                        // `from_str_radix` tolerates a leading `+`, which is not a hex digit
+                        quiet_assert(
+                            !hex.starts_with('+'),
+                            self.traceback(ParseError::InvalidEscapeSequence),
+                        )?;
                         let code = u16::from_str_radix(&hex, 16)
                             .map_err(|_| self.traceback(ParseError::InvalidEscapeSequence))?;
 
@@ -148,6 +153,10 @@ impl<'a> Parser<'a> {
                                 [self.next()?, self.next()?, self.next()?, self.next()?]
                                     .iter()
                                     .collect();
+                            quiet_assert(
+                                !hex.starts_with('+'),
+                                self.traceback(ParseError::InvalidEscapeSequence),
+                            )?;
                             let code_2 = u16::from_str_radix(&hex, 16)
                                 .map_err(|_| self.traceback(ParseError::InvalidEscapeSequence))?;
 
